@@ -6,12 +6,15 @@ from vf.gen import pick_weighted
 from props.C18 import parse_out
 
 ID = "C23"
-THEOREMS = ["C23_lookup_stable", "C23_snapshot_consistent", "C23_published_forever", "C23_no_leak"]
-MODEL_FILES = ["IndexPublish.v"]
+THEOREMS = ["C23_lookup_stable", "C23_snapshot_consistent", "C23_published_forever", "C23_no_leak",
+            "C23_refs_exact", "C23_refs_unclear_refuted"]
+MODEL_FILES = ["IndexPublish.v", "IdxRefs.v"]
 MODELLED = ("storage/filesystem/object.go: requireIndex (RLock check, singleflight, re-check, publish under Lock or close the loser's "
             "indexes), Reindex (populate, swap under Lock), packfileWriter's Notify (copy-on-grow append), findObjectInPackfile's snapshot "
             "of s.packs — as an interleaving model (Model/IndexPublish.v: every muI critical section one atomic step, everything else "
-            "split), with other instances adding packs / loose objects. NOT modelled, only exercised: freedom from data races in the Go "
+            "split), with other instances adding packs / loose objects; plumbing/format/idxfile/lazy_index.go lazyPrefixIter "
+            "(EntriesWithPrefix / Next with its eager release / Close) and plain readers on one internal/sharedfile SharedFile (refs, guard at "
+            "zero, ReleaseNow latch) under pool eviction — Model/IdxRefs.v, reference accounting exact in every interleaving. NOT modelled, only exercised: freedom from data races in the Go "
             "memory model, sharedfile / packhandle / fdpool descriptor sharing under pressure (C24), LazyIndex I/O, reference and index "
             "file reads; deletion of packs by another instance (repack) is outside the model")
 TRUSTED = [
@@ -20,13 +23,20 @@ TRUSTED = [
     "packs/loose objects, background readers of objects+references+index under fd pool capacities 0/1/2/default) with seeded jitter and "
     "compares the projected lookup answers with Model/IndexPublish.c23_run under a generated schedule",
     "thorough tier: the same harness built with `go build -race`; a reported DATA RACE is a failing case",
+    "reference accounting observed directly (hooks of build tag verif: LazyIndex.VerifIdxRefs/VerifRevRefs/VerifPinIdx, "
+    "ObjectStorage.VerifLazyIndexes): after every scenario no reference is left on any published .idx/.rev, and with one harness pin "
+    "per .idx every prefix search leaves exactly the pin; suite `iter` drives EntriesWithPrefix/Next/Close step by step and compares "
+    "answer + reference count with Model/IdxRefs.c23_iter_run",
 ]
 ASSUMPTIONS = ["other instances only add packs and loose objects while this instance reads (no concurrent repack/prune)",
                "Go's race detector and the schedules actually produced bound what is observed about data races: absence is not proved"]
-RULE = ("scenario = initial repository (<= 10 objects: loose set, <= 3 packs) + 3-9 threads (lookups by get/has/size of present / absent / "
-        "concurrently-added objects, Reindex, same-instance pack writer, external pack / loose writers) + 0-4 background readers + options "
-        "(pool 0/1/2/default, lazy / in-memory idx, LargeObjectThreshold, tiny cache) + a model schedule; non-trivial = at least two "
-        "lookups and one writer or Reindex; distinct by content")
+RULE = ("universe = 24 blobs whose ids share four fan-out buckets; scenario = initial repository (general: loose set + <= 3 packs; "
+        "multipack-prefix: 4-6 packs, lazy index, pool capacity 1/2/3) + 3-10 threads (lookups by get/has/size, prefix resolvers with 2-4 byte "
+        "prefixes of existing ids and near-miss prefixes that stop at a larger non-matching hash, Reindex, same-instance pack writer, external "
+        "pack / loose writers, external git repack) + background readers (objects, prefix searches, references, index) + options + a model "
+        "schedule; suite iter = (packs, pack, prefix of an own / near-miss / other-bucket / beyond-the-bucket kind, 0-2 pins, a script of "
+        "Next / Close incl. early, after exhaustion and repeated Close); non-trivial = at least two lookups and one writer or Reindex, resp. "
+        "an iterator that acquired a reference and >= 2 steps; distinct by content")
 LEVEL_NOTE = ("partial: the publication protocol is proved for all interleavings of the model; data-race freedom and descriptor-pressure "
               "behaviour are exercised (stress + race detector), not proved")
 
@@ -112,7 +122,7 @@ class Main(Suite):
     name = "main"
     go_cmd = "c23"
     coq_imports = "From GoGit Require Import Model.IndexPublish."
-    quick_n = 160
+    quick_n = 130
     thorough_n = 1500
 
     def gen(self, rng, n, tier):
@@ -267,7 +277,7 @@ class IterRefs(Suite):
     name = "iter"
     go_cmd = "c23"
     coq_imports = "From GoGit Require Import Model.IdxRefs."
-    quick_n = 150
+    quick_n = 120
     thorough_n = 2500
 
     def gen(self, rng, n, tier):
